@@ -28,9 +28,22 @@ impl<F: Field> CircuitBuilder<F> {
         let width_ext = call.config.width_ext();
         let rate_ext = call.config.rate_ext();
 
+        // The AIR ties an input limb either to the witness bus or to the previous row's output.
+        // A sponge chain start has no previous row, so a limb the caller leaves out
+        // (zero-initialised state) would be the prover's to choose: wire it to the constant zero
+        // instead. The compact D=1 layout asserts zero capacity on chain starts itself (and
+        // takes no witness-fed capacity), so only its rate limbs need this.
+        let compact_d1 = call.config.d() == 1 && width_ext == 16 && rate_ext == 8;
+        let wired_limbs = if compact_d1 { rate_ext } else { width_ext };
+        let chain_start_zero = (call.new_start
+            && !call.merkle_path
+            && call.inputs.iter().take(wired_limbs).any(Option::is_none))
+        .then(|| self.define_const(F::ZERO));
+
         let mut input_exprs: Vec<Vec<ExprId>> = Vec::with_capacity(width_ext + 3);
-        for limb in &call.inputs {
-            input_exprs.push(limb.map_or_else(Vec::new, |v| vec![v]));
+        for (i, limb) in call.inputs.iter().enumerate() {
+            let zero = chain_start_zero.filter(|_| i < wired_limbs);
+            input_exprs.push(limb.or(zero).map_or_else(Vec::new, |v| vec![v]));
         }
         input_exprs.push(call.mmcs_index_sum.map_or_else(Vec::new, |v| vec![v]));
         input_exprs.push(call.mmcs_bit.map_or_else(Vec::new, |v| vec![v]));
